@@ -50,6 +50,33 @@ def assigned_names(nodes):
   return out
 
 
+def mutated_in_place(nodes):
+  out = set()
+  for n in nodes:
+    for sub in ast.walk(n):
+      if isinstance(sub, ast.Call) and isinstance(sub.func, ast.Attribute) and isinstance(
+          sub.func.value, ast.Name) and sub.func.attr in _MUTATORS:
+        out.add(sub.func.value.id)
+      if isinstance(sub, (ast.Assign, ast.AugAssign, ast.Delete)):
+        tg = sub.targets if not isinstance(sub, ast.AugAssign) else [sub.target]
+        for t in tg:
+          if isinstance(t, ast.Subscript) and isinstance(t.value, ast.Name):
+            out.add(t.value.id)
+  return out
+
+
+def alias_mods(nodes):
+  """Holders whose elements are mutated through a loop target (`for t in H: t.mutate()`)."""
+  mut = mutated_in_place(nodes)
+  out = set()
+  for n in nodes:
+    for sub in ast.walk(n):
+      if isinstance(sub, ast.For) and isinstance(sub.iter, ast.Name) and isinstance(
+          sub.target, ast.Name) and sub.target.id in mut:
+        out.add(sub.iter.id)
+  return out
+
+
 _MUTATORS = ('add', 'append', 'pop', 'update', 'remove', 'discard', 'extend',
              'insert', 'clear', 'setdefault', 'popleft', 'sort')
 
@@ -67,6 +94,15 @@ class StmtMixin:
       raise Unsupported('statement %s at line %d' % (type(st).__name__, st.lineno))
     self.cur_line = st.lineno
     m(st)
+    c = self.cur_contract
+    if c is not None and c.asserts and self.depth == 0 and not isinstance(
+        st, (ast.For, ast.While, ast.If, ast.Try)):
+      src = ast.unparse(st)
+      for anchor, specs in c.asserts.items():
+        if src.startswith(anchor):
+          self.used_anchors.add(anchor)
+          for j, sp in enumerate(specs):
+            self.oblige(self.spec(sp), 'lemma', 'after `%s` [%d]: %s' % (anchor, j, sp))
 
   # -- simple statements ----------------------------------------------------
 
@@ -203,39 +239,86 @@ class StmtMixin:
     for inv in lc.inv:
       self.assume(self.spec(inv))
 
+  def _ghost_run(self, stmts):
+    """Ghost assignments `name = <spec expr>` (exist only in the VCs)."""
+    for text in stmts:
+      node = ast.parse(text.strip()).body[0]
+      if not (isinstance(node, ast.Assign) and isinstance(node.targets[0], ast.Name)):
+        raise Unsupported('ghost statement must be `name = expr`: %s' % text)
+      saved = self.pure_mode
+      self.pure_mode = True
+      try:
+        val = self.eval(node.value)
+      finally:
+        self.pure_mode = saved
+      name = node.targets[0].id
+      ls = self.local_sort(name)
+      if ls is not None:
+        val = self.coerce(val, ls)
+      self.env[name] = val
+
+  def _declare_locals(self, mods):
+    """Declared (typed) locals that are assigned in the loop but unbound so far get a
+    havocked value (UnboundLocalError is not modelled: documented assumption)."""
+    c = self.cur_contract
+    if c is None or self.depth:
+      return
+    for n in mods:
+      if n not in self.env and n in c.ghost:
+        v = V(c.ghost[n], c.ghost[n].fresh(n))
+        self.env[n] = v
+        self.assume_wf(v)
+
+  def _end_of_iteration(self, lc, ordinal):
+    self._ghost_run(lc.ghost_end)
+    for j, lem in enumerate(lc.lemmas):
+      self.oblige(self.spec(lem), 'lemma', 'loop#%d lemma[%d]: %s' % (ordinal, j, lem))
+
   def st_For(self, st):
     ordinal, lc = self._loop_contract(st)
+    self._ghost_run(lc.ghost_init)
     it = self.eval(st.iter)
     seq = self.iter_to_seq(it, st)          # V of Seq sort (ghost order for sets/dicts)
     ss = seq.sort
-    n = ss.len(seq.t)
     ghost = {}
     if lc.seq:
       ghost[lc.seq] = seq
     idx_name = lc.index or ('_i%d' % ordinal)
     mods = assigned_names(st.body) | assigned_names([ast.Assign(
-        targets=[st.target], value=ast.Constant(0))])
+        targets=[st.target], value=ast.Constant(0))]) | alias_mods([st])
+    mods |= {n for n in self._ghost_names(lc)}
+    live = isinstance(st.iter, ast.Name) and st.iter.id in mods and isinstance(it, V) and isinstance(it.sort, S.Seq)
+    self.loop_entry[ordinal] = self._snap_env()
     # 1. invariant holds on entry (index 0)
     g0 = dict(ghost)
     g0[idx_name] = Vl.ival(0)
     self._check_inv(lc, 'inv.init', ordinal, g0)
     which = self.dec.choose(2)
     self._havoc(mods)
+    self._declare_locals(mods)
     i = z3.FreshConst(z3.IntSort(), idx_name)
     gi = dict(ghost)
     gi[idx_name] = V(S.INT, i)
+    if live:
+      # Python iterates the live list: element i is read from the current list
+      seq = self.env[st.iter.id]
+    n = ss.len(seq.t)
     if which == 0:
       # 2. arbitrary iteration
       self.assume(z3.And(0 <= i, i < n))
       self._assume_inv(lc, gi)
-      self.assign(st.target, V(ss.elem, ss.at(seq.t, i)))
+      self.loop_head[ordinal] = self._snap_env()
+      elem = V(ss.elem, ss.at(seq.t, i))
+      if isinstance(st.iter, ast.Name) and isinstance(ss.elem, (S.Seq, S.SetOf, S.DictOf)):
+        elem = V(ss.elem, elem.t, origin=('elem', st.iter.id, i))
+      self.assign(st.target, elem)
       try:
         self.exec_block(st.body)
       except Continue_:
         pass
       except Break_:
-        self._drop(ghost, idx_name)
         return  # continues after the loop, skipping orelse
+      self._end_of_iteration(lc, ordinal)
       g1 = dict(ghost)
       g1[idx_name] = V(S.INT, i + 1)
       self._check_owned(st, mods)
@@ -244,8 +327,16 @@ class StmtMixin:
     # 3. exit: all elements consumed
     self.assume(i == n)
     self._assume_inv(lc, gi)
-    self._drop(ghost, idx_name)
     self.exec_block(st.orelse)
+
+  def _ghost_names(self, lc):
+    out = []
+    for text in list(lc.ghost_init) + list(lc.ghost_end):
+      out.append(text.split('=')[0].strip())
+    return out
+
+  def _snap_env(self):
+    return {k: self.snapshot(v) for k, v in self.env.items()}
 
   def _check_owned(self, st, mods):
     """Ownership invariant of loop-carried containers that the loop mutates in place.
@@ -271,29 +362,32 @@ class StmtMixin:
                     'loop-carried %s is mutated in place by the loop but aliases the %s of an immutable %s '
                     'at the end of an iteration' % (n, v.origin[2], v.origin[1]))
 
-  def _drop(self, ghost, idx_name):
-    # ghost names stay visible for later invariants/postconditions (read-only)
-    pass
-
   def st_While(self, st):
     ordinal, lc = self._loop_contract(st)
-    mods = assigned_names(st.body)
+    self._ghost_run(lc.ghost_init)
+    mods = assigned_names(st.body) | alias_mods([st]) | set(self._ghost_names(lc))
+    self.loop_entry[ordinal] = self._snap_env()
     self._check_inv(lc, 'inv.init', ordinal, {})
     which = self.dec.choose(2)
     self._havoc(mods)
+    self._declare_locals(mods)
     self._assume_inv(lc, {})
     c = self.truth(self.eval(st.test))
     if which == 0:
       self.assume(c)
+      self.loop_head[ordinal] = self._snap_env()
       try:
         self.exec_block(st.body)
       except Continue_:
         pass
       except Break_:
         return
+      self._end_of_iteration(lc, ordinal)
       self._check_owned(st, mods)
       self._check_inv(lc, 'inv.preserve', ordinal, {})
       raise PathEnd()
+    if z3.is_true(z3.simplify(c)):
+      raise PathEnd()   # `while True`: the loop is only left by break/return/raise
     self.assume(z3.Not(c))
     self.exec_block(st.orelse)
 
